@@ -391,8 +391,10 @@ theorem expireWith_sizes (s : St) (now : Nat) (r : DelayQ × DelayQ.PollRes)
     split
     · rename_i en _
       split
-      · have hi : (q.insert now (clampTimeout en.remainder) e.val).1.len ≤ q.len + 1 := DelayQ.insert_len' _ _ _ _
-        obtain ⟨a1, a2, a3, a4⟩ := rearmWith_sizes s q e.val (clampTimeout en.remainder) _ hi hq
+      · have hi : (q.insert now (clampTimeout (en.remainder - (now - e.whenMs * nsPerMs))) e.val).1.len ≤ q.len + 1 :=
+          DelayQ.insert_len' _ _ _ _
+        obtain ⟨a1, a2, a3, a4⟩ := rearmWith_sizes s q e.val
+          (now - e.whenMs * nsPerMs + clampTimeout (en.remainder - (now - e.whenMs * nsPerMs))) _ hi hq
         exact ⟨a1, a2, a3, fun s' h => absurd h (a4 s')⟩
       · have f := osSend_frameQ { s with timers := q, inflight := s.inflight.filter (·.id != e.val) } en.cid .deadline
         refine ⟨f.pq, f.cq, ?_, ?_⟩
